@@ -732,7 +732,22 @@ inline void do_update(Built& b) {
 #endif
 }
 
+// fresh=1: before every update the policy's v-table pointer container is the one
+// a fresh process has (no capacity left over from a larger earlier registry:
+// a vector resized a little too short would otherwise go unnoticed)
+inline bool g_fresh_storage = false;
+template<class Pol>
+auto fresh_storage(int) -> decltype((void)Pol::vptrs.clear()) {
+    decltype(Pol::vptrs) empty;
+    Pol::vptrs.swap(empty);
+}
+template<class Pol>
+void fresh_storage(long) {
+}
+
 inline void build(const rx::Registry& r, Built& b) {
+    if (g_fresh_storage)
+        fresh_storage<P>(0);
     unregister_all();
     fill_records(r);
     fill_methods(r);
